@@ -123,6 +123,11 @@ func c14Build(shape, position, custom string) *c14World {
 	if custom == "request" {
 		w.f.Use(func(c flamego.Context) { c.Map(customRH) })
 	}
+	if custom == "request-late" {
+		// an earlier handler of the same request has already returned an (empty) value, rendered by
+		// the default table, before the custom handler is mapped
+		w.f.Use(func() string { return "" }, func() error { return nil }, func(c flamego.Context) { c.Map(customRH) })
+	}
 	next := func(c flamego.Context) {
 		w.nextRan = true
 		c.ResponseWriter().WriteHeader(299)
@@ -229,7 +234,11 @@ func c14Eval(w *c14World, shape string, v c14Vals) (bad, kind string, defined bo
 	w.lastCode = spy.code
 	if w.custom != "" {
 		// the registered return handler replaces the table: called once with the values, default writes nothing
-		if w.customN != 1 {
+		wantN := 1
+		if w.custom == "app" || w.custom == "request" {
+			wantN = 1
+		}
+		if w.customN != wantN {
 			return fmt.Sprintf("custom ReturnHandler (%s scope) called %d times", w.custom, w.customN), "custom-not-used", true
 		}
 		if !w.nextRan || spy.code != 299 || spy.body.Len() != 0 {
@@ -336,7 +345,7 @@ func c14Run(r *core.Run) {
 	r.Rule = "engine E: every supported return shape x every value (empty, nil, all 256 single bytes, 1 KiB, every status 100..599, nil / errors.New / struct / pointer-receiver errors, nil pointers) x position {first of two handlers, last before the action, application middleware} x {default table, custom ReturnHandler at application scope, at request scope}; oracle = the statement's table, 'wrote nothing' observed as 'the next handler ran'; non-trivial = value that is nil/empty/zero, an error, or a non-200 status"
 	r.Assumptions = []string{"a non-nil pointer to an empty value is not covered by the statement and is asserted neither way (counted)", "status codes outside 100..599 are outside the quantifier"}
 	positions := []string{"first-of-two", "last", "middleware"}
-	customs := []string{"", "app", "request"}
+	customs := []string{"", "app", "request", "request-late"}
 	type job struct{ shape, pos, custom string }
 	var jobs []job
 	for _, s := range c14Shapes {
